@@ -96,7 +96,14 @@ Inductive case19 :=
    implementation's outputs come as (length, digest) of the bytes it wrote and (variant, row
    lengths, digest of all values) of what it read back.  The judgement stays here. *)
 | KWeightsBig (is_int : bool) (crit rows seed : N) (wsum : option (N * N)) (rback : ires (bool * list N * N))
-| KPartBig (n seed : N) (wsum : option (N * N)) (rback : ires (N * N)).
+| KPartBig (n seed : N) (wsum : option (N * N)) (rback : ires (N * N))
+(* a mesh given by formula: [n] nodes in dimension [dim], a Triangle block of one element, then an
+   Edge block of [e] elements; node / element counts around 2^16.  ascii = true: written by
+   display_medit_ascii, coordinates drawn from the 8-entry table [coord_tab] (std's text and its
+   parse for these 8 values are [pt]); false: serialize_medit_binary, arbitrary bit patterns.
+   Read back by Mesh::from_reader; summaries = (dimension, #nodes, #elements, digest of everything) *)
+| KMeditBig (ascii : bool) (dim n e seed : N) (pt : list (N * pbytes * option N))
+            (wsum : option (N * N)) (rback : ires (N * N * N * N)).
 
 (* ---- formula-generated values and digests (mirrored in harness/src/bin/c19.rs) ---- *)
 
@@ -106,14 +113,18 @@ Definition gen_specials : list N :=
    9218868437227405313; 9218868437227405311; 1].
 (* an arbitrary 64-bit pattern; one in sixteen is a special float pattern / extreme integer *)
 Definition gen_val (seed r c : N) : N :=
-  let v := N.land ((seed + r * 11400714819323198485 + c * 13787848793156543929) * 10723151780598845931 + r * c) mask64 in
+  (* multiplications recurse on their FIRST operand: keep the small one first *)
+  let v0 := N.land (seed + r * 11400714819323198485 + c * 13787848793156543929) mask64 in
+  let v := N.lxor v0 (N.shiftr v0 31) in
   if N.shiftr v 60 =? 0 then nth (N.to_nat (N.land v 7)) gen_specials 0 else v.
 Fixpoint gen_row (seed r : N) (n : nat) (j : N) : list N :=
   match n with O => [] | S k => gen_val seed r j :: gen_row seed r k (j + 1) end.
 Fixpoint gen_rows (seed : N) (c n : nat) (r : N) : list (list N) :=
   match n with O => [] | S k => gen_row seed r c 0 :: gen_rows seed c k (r + 1) end.
 
-Definition dstep (h x : N) : N := N.land (h * 1099511628211 + x + 1) mask64.
+(* an order-sensitive running digest with shifts and additions only (64-bit multiplications are
+   slow under vm_compute): h' = (h << 5) + (h >> 2) + h + x + 1  mod 2^64 *)
+Definition dstep (h x : N) : N := N.land (N.shiftl h 5 + N.shiftr h 2 + h + x + 1) mask64.
 Definition dinit : N := 14695981039346656037.
 (* digest of a byte string, eight bytes at a time (little endian), then the tail *)
 Fixpoint digest_bytes (h : N) (l : list N) : N :=
@@ -158,6 +169,39 @@ Definition nodes_below (bound : N) (m : mesh) : bool :=
 
 Definition sniff_matches (buf : list N) (bin : bool) (asc : ires bool) : bool :=
   Bool.eqb (test_format_binary buf) bin && read_matches Bool.eqb (test_format_ascii buf) asc.
+
+(* ---- formula-generated meshes ---- *)
+
+(* 0.0, -0.0, 1.0, -1.5, 0.1, 1e15, 0.000025, 2^53 + 2 (short texts: the file stays ~2 MB) *)
+Definition coord_tab : list N :=
+  [0; 9223372036854775808; 4607182418800017408; 13832806255468478464; 4591870180066957722;
+   4831355200913801216; 4537999922764202797; 4845873199050653697].
+Fixpoint gen_seq {A} (f : N -> A) (n : nat) (j : N) : list A :=
+  match n with O => [] | S k => f j :: gen_seq f k (j + 1) end.
+Definition gen_mesh (tab : bool) (dim n e seed : N) : mesh :=
+  let nmask := if 65536 <=? n then 65535 else 3 in       (* node numbers below n (n >= 4) *)
+  let coord i := let v := gen_val seed 0 i in if tab then nth (N.to_nat (N.land v 7)) coord_tab 0 else v in
+  mkmesh dim
+    (gen_seq coord (N.to_nat (dim * n)) 0)
+    (gen_seq (fun i => of_bits 64 (gen_val seed 1 i)) (N.to_nat n) 0)
+    [mkblock Triangle [0; 1; 2] [of_bits 64 (gen_val seed 4 0)];
+     mkblock Edge (gen_seq (fun k => N.land (gen_val seed 2 k) nmask) (N.to_nat (2 * e)) 0)
+                  (gen_seq (fun k => of_bits 64 (gen_val seed 3 k)) (N.to_nat e) 0)].
+
+Definition ty_idx (t : etype) : N :=
+  match t with Vertex => 0 | Edge => 1 | Triangle => 2 | Quadrangle => 3 | Quadrilateral => 4
+             | Tetrahedron => 5 | Hexahedron => 6 end.
+Definition lenN {A} (l : list A) : N := N.of_nat (length l).
+Definition mesh_vals (m : mesh) : list N :=
+  [m_dim m; lenN (m_coords m)] ++ m_coords m ++ [lenN (m_nrefs m)] ++ map zbits (m_nrefs m)
+  ++ [lenN (m_topo m)]
+  ++ flat_map (fun b => [ty_idx (b_ty b); lenN (b_nodes b)] ++ b_nodes b
+                        ++ [lenN (b_refs b)] ++ map zbits (b_refs b)) (m_topo m).
+Definition mesh_sum (m : mesh) : N * N * N * N :=
+  (m_dim m, lenN (m_nrefs m), fold_left (fun a b => a + lenN (b_refs b)) (m_topo m) 0,
+   digest_vals (mesh_vals m)).
+Definition sum4_eqb (a b : N * N * N * N) : bool :=
+  match a, b with (a1, a2, a3, a4), (b1, b2, b3, b4) => (a1 =? b1) && (a2 =? b2) && (a3 =? b3) && (a4 =? b4) end.
 
 Definition eval19 (c : case19) : verdict :=
   match c with
@@ -257,6 +301,23 @@ Definition eval19 (c : case19) : verdict :=
                        (fres_map (fun l => (N.of_nat (length l), digest_vals l)) (read_partition b)) rb;
        prop_ok := is_ok_of sum_eqb (n, digest_vals ids) rb;
        cls := 128 + ires_class rb |}
+  | KMeditBig ascii dim n e seed pt ws rb =>
+    let pt' := map (fun x => (fst (fst x), unpack (snd (fst x)))) pt in
+    (* parse table: exactly std's texts of the 8 table values *)
+    let rt' := flat_map (fun x => match snd x with Some y => [(unpack (snd (fst x)), y)] | None => [] end) pt in
+    let m := gen_mesh ascii dim n e seed in
+    let floats_ok := forallb (fun x => word_okb (unpack (snd (fst x)))
+                                       && match snd x with Some y => y =? fst (fst x) | None => false end) pt
+                     && forallb (fun c => existsb (fun x => fst (fst x) =? c) pt) coord_tab in
+    let mw := if ascii then serialize_ascii (tab_print pt') m else serialize_binary m in
+    let inq := (negb ascii || floats_ok) && (1 <=? dim) && (4 <=? n) in
+    {| corr_ok := wsum_matches mw ws
+                  && match mw with
+                     | FOk b => read_matches sum4_eqb (fres_map mesh_sum (from_reader (tab_parse rt') b)) rb
+                     | _ => true
+                     end;
+       prop_ok := if inq then is_ok_of sum4_eqb (mesh_sum m) rb else true;
+       cls := (if ascii then 136 else 132) + ires_class rb |}
   | KSniff b bin asc =>
     {| corr_ok := sniff_matches (unpack b) bin asc;
        prop_ok := true;
